@@ -19,6 +19,8 @@ import time
 VERIF = os.path.dirname(os.path.dirname(os.path.abspath(__file__)))
 REPO = os.environ.get("VERIF_REPO", "/repo")
 CACHE_ROOT = os.path.join(VERIF, ".cache")
+# mutant / seeded-change runs redirect their outputs (evidence, replays, scratch) away from /verif
+OUT = os.environ.get("VERIF_OUT", VERIF)
 PYTHON = "/venv/bin/python"
 GUARD = "MCHAP_VERIF_INJECT"
 
@@ -99,7 +101,7 @@ def touch_cache():
 
 def workdir(name):
     """Scratch directory under /verif/.work (git-ignored, not /tmp)."""
-    p = os.path.join(VERIF, ".work", name)
+    p = os.path.join(OUT, ".work", name)
     os.makedirs(p, exist_ok=True)
     return p
 
